@@ -157,6 +157,8 @@ def guard_texts(gs):
 def check_pack_regexp(ctx, cname, ci, fi):
     repo = ctx.repo
     w = repo.walker(inline_depth=0, max_paths=ctx.max_paths)
+    # what only the constructor computes (a marker's pattern prepared once) reads as its definition
+    w.const_heap = dict(repo.ctor_consts(ci))
     paths = w.paths(fi.node, cls=ci)
     ctx.unit('paths', len(paths))
     seen = set()
@@ -188,14 +190,20 @@ def check_pack_regexp(ctx, cname, ci, fi):
             else:
                 ctx.holds('R12-escape-discipline', fi, st, 'inserted as a literal: escaped by FragmentsOfRegexps.insert', e.lineno, clause='a')
         # ---- (c) sinks
-        for sink, operand, what in sinks_of(e):
-            key = (canon(sink), canon(operand), tuple(sorted(gt)))
+        if e.kind == 'call' and getattr(e, 'cond', False):
+            # evaluated under a condition of the expression it is part of: judged there, with
+            # that condition, when the enclosing expression is itself one of the path's effects
+            if e.node is not None and any(o is not e and o.kind == 'call' and o.node is not None and o.node is not e.node
+                                          and any(x is e.node for x in ast.walk(o.node)) for o in p.effects):
+                continue
+        for sink, operand, what, local in sinks_of(e):
+            key = (canon(sink), canon(operand), tuple(sorted(gt)), tuple(sorted(local)))
             if key in seen:
                 continue
             seen.add(key)
             nsinks += 1
             st = '[%s] %s of %s' % (cname, what, canon(operand))
-            guarded = ('not isinstance(%s, Any)' % canon(operand)) in gt
+            guarded = ('not isinstance(%s, Any)' % canon(operand)) in (gt | set(local))
             in_try = False
             if e.node is not None:
                 in_try = inside_tolerant_try(fi.node, e.node)
@@ -232,8 +240,37 @@ def sinks_of(e):
         exprs.append(e.call)
     elif e.kind in ('setattr', 'store_attr', 'store_sub') and e.value is not None:
         exprs.append(e.value)
+    def walk_guarded(n, known):
+        """every sub-expression with what the conditional expressions around it establish"""
+        yield n, known
+        if isinstance(n, ast.IfExp):
+            yield from walk_guarded(n.test, known)
+            pos = frozenset(canon(c) for c in conj(n.test))
+            neg = frozenset(canon(c) for c in conj(negate(n.test)))
+            yield from walk_guarded(n.body, known | pos)
+            yield from walk_guarded(n.orelse, known | neg)
+            return
+        for ch in ast.iter_child_nodes(n):
+            yield from walk_guarded(ch, known)
+
     for root in exprs:
-        for n in ast.walk(root):
+        for n, known in walk_guarded(root, frozenset()):
+            before = len(out)
+            _sinks_at(n, out)
+            for i in range(before, len(out)):
+                out[i] = out[i] + (known,)
+    # self.pack(pkt, fragments): packs the field's own value
+    if e.kind == 'call' and isinstance(e.call.func, ast.Attribute) and e.call.func.attr == 'pack' \
+            and isinstance(e.call.func.value, ast.Name) and e.call.func.value.id == 'self':
+        own = ast.Call(func=ast.Name(id='getattr', ctx=ast.Load()),
+                       args=[ast.Name(id='pkt', ctx=ast.Load()), ast.Attribute(value=ast.Name(id='self', ctx=ast.Load()), attr='field_name', ctx=ast.Load())], keywords=[])
+        out.append((e.call, own, 'self.pack (encodes the value)', frozenset()))
+    return out
+
+
+def _sinks_at(n, out):
+    if True:
+        if True:
             if isinstance(n, ast.BinOp) and isinstance(n.op, ast.Mod) and isinstance(n.left, ast.Constant) and isinstance(n.left.value, (str, bytes)):
                 import re as _re
                 fmt = n.left.value if isinstance(n.left.value, str) else n.left.value.decode('latin1')
@@ -250,13 +287,6 @@ def sinks_of(e):
                 for a in n.args:
                     if a in value_reads(a) and isinstance(a, ast.Call):
                         out.append((n, a, '%s()' % n.func.id))
-    # self.pack(pkt, fragments): packs the field's own value
-    if e.kind == 'call' and isinstance(e.call.func, ast.Attribute) and e.call.func.attr == 'pack' \
-            and isinstance(e.call.func.value, ast.Name) and e.call.func.value.id == 'self':
-        own = ast.Call(func=ast.Name(id='getattr', ctx=ast.Load()),
-                       args=[ast.Name(id='pkt', ctx=ast.Load()), ast.Attribute(value=ast.Name(id='self', ctx=ast.Load()), attr='field_name', ctx=ast.Load())], keywords=[])
-        out.append((e.call, own, 'self.pack (encodes the value)'))
-    return out
 
 
 def inside_tolerant_try(func, node):
@@ -301,7 +331,9 @@ def check_widths(ctx, repo):
     # Data
     dcls = repo.cls('Data')
     n = 0
-    for p in w.paths(dt.node, cls=dcls):
+    wd = repo.walker(max_paths=ctx.max_paths)
+    wd.const_heap = dict(repo.ctor_consts(dcls))
+    for p in wd.paths(dt.node, cls=dcls):
         gt = guard_texts(p.guards)
         if 'isinstance(getattr(pkt, self.field_name), Any)' not in gt:
             continue
